@@ -51,6 +51,11 @@ fn main() {
     }
     let code = dispatch!(args[0].as_str(), args,
         "C01" => c01,
+        "C12" => c12,
+        "C15" => c15,
+        "C16" => c16,
+        "C19" => c19,
+        "C20" => c20,
     );
     std::process::exit(code)
 }
